@@ -117,6 +117,13 @@ pub fn run(rep: &mut Rep) {
         }
         let mut rng = Rng::new(rep.seed.wrapping_mul(7919).wrapping_add(widx));
         let mut s = setup(rep.seed.wrapping_add(widx));
+        // the order of acknowledgements must also survive partial / pending writes and a stalled writer
+        s.w.sim.writer.0.borrow_mut().plan = match widx % 4 {
+            1 => crate::sim::WritePlan::Max(1),
+            2 => crate::sim::WritePlan::MaxPendingAlt(2),
+            3 => crate::sim::WritePlan::Max(3),
+            _ => crate::sim::WritePlan::All,
+        };
         let ids: Vec<u16> = vec![1, 2, 255, 256, 257, 0x7fff, 0x8000, 65535, (rng.next() % 65535 + 1) as u16];
         let alpha2 = alphabet(&ids);
         let steps = 40;
@@ -135,12 +142,22 @@ pub fn run(rep: &mut Rep) {
                 }
                 continue;
             }
+            if rng.chance(1, 10) {
+                if s.w.sim.writer.0.borrow().stalled {
+                    s.w.sim.release_writer();
+                } else {
+                    s.w.sim.stall_writer();
+                }
+            }
             let a = *rng.pick(&alpha2);
             seq.push(a);
             apply(&mut s, a);
             if rng.chance(3, 4) {
                 s.w.settle_check();
             }
+        }
+        if s.w.sim.writer.0.borrow().stalled {
+            s.w.sim.release_writer();
         }
         s.w.settle_check();
         rep.add("evaluations", 1);
